@@ -82,6 +82,8 @@ type Beh struct {
 	Len   *int   `json:"len"`
 	Dt    int    `json:"dt"`
 	ESlot int    `json:"eslot"`
+	// TNil (with K == "err"): the error returned is a typed nil pointer, `(*NilErr)(nil)` -- a non-nil error value.
+	TNil bool `json:"tnil"`
 	// Re makes the function call back into the container while it is running: it invokes function Fn on
 	// scope Scope between its enter and its exit event (programs with such behaviours are judged by the
 	// trace predicates only; the model has no re-entrant user functions).
@@ -216,6 +218,15 @@ func FatalRes(kind, msg string) *ProgRes {
 type UserErr struct{ Fn, X int }
 
 func (e *UserErr) Error() string { return fmt.Sprintf("user error %d:%d", e.Fn, e.X) }
+
+// NilErr is the error type of which scripted functions return the typed nil pointer: `var e *NilErr; return v, e`.
+// The interface value is not nil, so the function has failed.  Its methods do not touch the receiver.
+type NilErr struct{ _ int }
+
+func (e *NilErr) Error() string { return "typed nil error" }
+
+// Code makes *NilErr implement pool.EI.
+func (e *NilErr) Code() int { return -1 }
 
 // Code makes *UserErr implement pool.EI, the user-defined error interface of the universe.
 func (e *UserErr) Code() int { return e.X }
